@@ -18,7 +18,7 @@ RELATED = {
     'C01': ['C07'], 'C02': ['C03'], 'C03': [], 'C04': ['C12'], 'C05': [], 'C06': [], 'C07': ['C01'], 'C08': [], 'C09': ['C01'],
     'C10': ['C17'], 'C11': [], 'C12': ['C04'], 'C13': [], 'C14': [], 'C15': [], 'C16': [], 'C17': [], 'C18': [], 'C19': [], 'C20': [],
 }
-OVERRIDE_CHECKS = {'C05/a': ['C05'], 'C07/b': ['C05', 'C07'], 'C10/b': ['C10', 'C17'], 'C17/a': ['C17'], 'C04/d': ['C04', 'C17'], 'C10/d': ['C10', 'C05'], 'C10/c': ['C10', 'C17'], 'C05/d': ['C05'], 'C11/d': ['C11', 'C19'], 'C04/f': ['C04', 'C05'], 'C06/f': ['C06', 'C04'], 'C12/e': ['C12', 'C10'], 'C10/f': ['C10', 'C17'], 'C02/f': ['C02', 'C10'], 'C14/e': ['C14', 'C01'], 'C04/g': ['C04', 'C16'], 'C09/g': ['C09', 'C16'], 'C07/h': ['C07', 'C06'], 'C14/g': ['C14', 'C17'], 'C19/h': ['C19', 'C20'], 'C06/h': ['C06', 'C18'], 'C03/i': ['C03', 'C16'], 'C07/j': ['C07', 'C06'], 'C09/j': ['C09', 'C05', 'C17'], 'C11/i': ['C11', 'C19'], 'C19/j': ['C19', 'C20']}
+OVERRIDE_CHECKS = {'C05/a': ['C05'], 'C07/b': ['C05', 'C07'], 'C10/b': ['C10', 'C17'], 'C17/a': ['C17'], 'C04/d': ['C04', 'C17'], 'C10/d': ['C10', 'C05'], 'C10/c': ['C10', 'C17'], 'C05/d': ['C05'], 'C11/d': ['C11', 'C19'], 'C04/f': ['C04', 'C05'], 'C06/f': ['C06', 'C04'], 'C12/e': ['C12', 'C10'], 'C10/f': ['C10', 'C17'], 'C02/f': ['C02', 'C10'], 'C14/e': ['C14', 'C01'], 'C04/g': ['C04', 'C16'], 'C09/g': ['C09', 'C16'], 'C07/h': ['C07', 'C06'], 'C14/g': ['C14', 'C17'], 'C19/h': ['C19', 'C20'], 'C06/h': ['C06', 'C18'], 'C03/i': ['C03', 'C16'], 'C07/j': ['C07', 'C06'], 'C09/j': ['C09', 'C05', 'C17'], 'C11/i': ['C11', 'C19'], 'C19/j': ['C19', 'C20'], 'C02/k': ['C02', 'C13'], 'C04/k': ['C04', 'C17'], 'C04/l': ['C04', 'C17'], 'C05/l': ['C05', 'C16'], 'C10/l': ['C10', 'C04', 'C06'], 'C19/l': ['C19', 'C20'], 'C08/l': ['C08', 'C06'], 'C09/k': ['C09', 'C01']}
 
 
 def ids():
